@@ -107,6 +107,14 @@ struct Arena {
                 mprotect(b->rw, b->rw_len, ro ? PROT_READ : (PROT_READ | PROT_WRITE));
                 b->readonly = ro;
         }
+        void set_rw(const void *p)
+        {
+                Buf *b = find(p);
+                if (!b) return;
+                mprotect(b->rw, b->rw_len, PROT_READ | PROT_WRITE);
+                b->readonly = false;
+                b->noaccess = false;
+        }
         void set_noaccess(const void *p)
         {
                 Buf *b = find(p);
